@@ -3,7 +3,7 @@
 
 Generates random recurrences in all three notations, evaluates the lines
     recstr / recrt / rechash / rmake
-on the extracted model (coq/Extract/out_rectext/modelrun) and on the real
+on the extracted model (coq/Extract/out/modelrun) and on the real
 package (tools/impl.py + impl_rectext.py), and compares line by line.  The two
 sides must agree on everything except where the model answers UNMODELLED.
 It also judges the property itself on the implementation's output: inside the
@@ -31,7 +31,7 @@ import impl_rectext    # noqa: E402,F401
 from common import MODES, rand_date, month_len, qstr  # noqa: E402
 
 MODELRUN = os.environ.get("VERIF_MODELRUN") or os.path.join(
-    HERE, "..", "coq", "Extract", "out_rectext", "modelrun")
+    HERE, "..", "coq", "Extract", "out", "modelrun")
 
 ZONES = [(0, 0), (0, 0), (5, 30), (-3, -30), (1, 0), (-1, 0), (0, 30), (0, -30),
          (12, 45), (-12, -45), (14, 0), (-11, 0), (23, 59), (-23, -59), (9, 0), (-9, -30)]
